@@ -44,14 +44,14 @@ def opOfWire : List String → Option EOp
   | ["i", r, ts] => (natsOfWire ts).map (fun l => .ins (nameOfWire r) l)
   | ["d", r, ts] => (natsOfWire ts).map (fun l => .del (nameOfWire r) l)
   | ["X", r] => some (.dropRel (nameOfWire r))
-  | ["F"] => some .flushAll
-  | ["C"] => some .compactAll
+  | ["F"] => some (.flushAll [])       -- the shard order is read off the implementation's token (`fillOrd`)
+  | ["C"] => some (.compactAll [])
   | _ => none
 
 def itemOfWire (toks : List String) : Option HItem :=
   match toks with
   | ["R"] => some .restart
-  | ["O", c] => (crashOfWire c).map (fun (j, cut) => .openCrash j cut)
+  | ["O", c] => (crashOfWire c).map (fun (j, cut) => .openCrash j cut [])
   | _ =>
     match toks.getLast? with
     | some l =>
@@ -93,9 +93,11 @@ def renderVis (v : List (Name × List Nat)) : String :=
   if v.isEmpty then "-" else
   ";".intercalate (v.map (fun e => nameToWire e.1 ++ "=" ++ ".".intercalate (e.2.map toString)))
 
+def renderOrd (l : List Name) : String := "+".intercalate (l.map nameToWire)
+
 def renderOut : Out → String
-  | .ack ok s => (if ok then "ok/" else "err/") ++ renderSteps s
-  | .crashed => "!"
+  | .ack ok s ord => (if ok then "ok/" else "err/") ++ renderSteps s ++ (if ord.isEmpty then "" else "/" ++ renderOrd ord)
+  | .crashed ord => "!" ++ renderOrd ord
   | .opened v s => "[" ++ renderVis v ++ "/" ++ renderSteps s ++ "]"
   | .openFailed => "err:open-failed"
 
@@ -133,11 +135,9 @@ def cutClass (steps : List Lbl) (j : Nat) (cut : Option Cut) : Option String :=
     if c.frag == .midchar then some "torn_wal_append_midchar" else some "torn_wal_append"
   | _, _ => none
 
-/-- expectation attached to an output token: allowed states / class / abstain for reopen tokens; `multi` marks the
-    acknowledgement of an operation that loops over ≥ 2 shards in `HashMap` order (step order not predicted). -/
+/-- expectation attached to an output token: allowed states / class / abstain for reopen tokens. -/
 structure Ann where
   exp : Option (List SpecSt × String × Bool) := none
-  multi : Bool := false
 
 def Track.expect (tr : Track) : Ann := { exp := some (tr.spec :: tr.pendingNew.toList, tr.cls, tr.c11) }
 
@@ -151,13 +151,13 @@ def annotate (b : Nat) (sys : Sys) (tr : Track) : List HItem → List (Out × An
   | [] => (bringUp sys).1.map (fun o => (o, tr.expect))
   | it :: rest =>
     match sys, it with
-    | .down d, .openCrash j cut =>
-      match openEngine d with
+    | .down d, .openCrash j cut ord =>
+      match openEngine d ord with
       | none => [(.openFailed, tr.expect)]
       | some w =>
         let steps := w.trace.map (·.1)
         let win := inMetaWalWindow steps j
-        (.crashed, {}) :: annotate b (.down (imageAt d w.trace j cut)) { tr with doubled := tr.doubled || win } rest
+        (.crashed (metaOrder w.trace), {}) :: annotate b (.down (imageAt d w.trace j cut)) { tr with doubled := tr.doubled || win } rest
     | _, _ =>
       match bringUp sys with
       | (outs, none) => outs.map (fun o => (o, tr.expect))
@@ -171,14 +171,10 @@ def annotate (b : Nat) (sys : Sys) (tr : Track) : List HItem → List (Out × An
         | .op o =>
           let w' := runOp b w o
           let appends := match o with | .ins _ _ => true | .del _ _ => true | _ => false
-          let multi := match o with
-            | .flushAll => w.mem.shards.length ≥ 2
-            | .compactAll => w.mem.shards.length ≥ 2
-            | _ => false
           let tr := { tr with c11 := tr.c11 || c11Shape tr.spec o,
                               tornHit := tr.tornHit || (appends && hasTorn w.disk && !w'.failed),
                               spec := if w'.failed then tr.spec else specApply tr.spec o }
-          judged ++ (.ack (!w'.failed) (w'.trace.map (·.1)), { multi := multi }) :: annotate b (.up w') tr rest
+          judged ++ (.ack (!w'.failed) (w'.trace.map (·.1)) (loopOrder o w'.trace), {}) :: annotate b (.up w') tr rest
         | .opCrash o j cut =>
           let w' := runOp b w o
           let steps := w'.trace.map (·.1)
@@ -192,9 +188,9 @@ def annotate (b : Nat) (sys : Sys) (tr : Track) : List HItem → List (Out × An
           let tr := { tr with pendingNew := some (specApply tr.spec o), c11 := tr.c11 || c11Shape tr.spec o,
                               tornHit := tr.tornHit || (appends && hasTorn w.disk),
                               doubled := tr.doubled || win, cur := cur }
-          judged ++ (.crashed, {}) :: annotate b (.down (imageAt w.disk w'.trace j cut)) tr rest
-        | .restart => judged ++ (.crashed, {}) :: annotate b (.down (crash w.disk noCut)) tr rest
-        | .openCrash _ _ => judged ++ (.crashed, {}) :: annotate b (.down (crash w.disk noCut)) tr rest
+          judged ++ (.crashed (loopOrder o w'.trace), {}) :: annotate b (.down (imageAt w.disk w'.trace j cut)) tr rest
+        | .restart => judged ++ (.crashed [], {}) :: annotate b (.down (crash w.disk noCut)) tr rest
+        | .openCrash _ _ _ => judged ++ (.crashed [], {}) :: annotate b (.down (crash w.disk noCut)) tr rest
 
 def judge (ann : List (Out × Ann)) (impl : List String) : String :=
   if ann.length != impl.length then specFail "unclassified" "output-shape" else
@@ -215,58 +211,59 @@ def judge (ann : List (Out × Ann)) (impl : List String) : String :=
   | some v => v
   | none => if verdicts.isEmpty then specOk else "na"
 
-def sortChars (s : String) : List Char := sortBy (fun a b => a ≤ b) s.toList
+/-- shard order observed by the implementation: `ok/<steps>/<r+s>` or `!<r+s>`. -/
+def ordOfTok (tok : String) : List Name :=
+  let o := if tok.startsWith "!" then (tok.drop 1).toString
+           else match tok.splitOn "/" with
+             | [_, _, o] => o
+             | _ => ""
+  if o.isEmpty || o == "-" then [] else (o.splitOn "+").map nameOfWire
 
-/-- model token, except that for a multi-shard loop the implementation's step order is adopted when it is a
-    permutation of the model's. -/
-def renderVs (o : Out) (a : Ann) (tok : String) : String :=
-  let m := renderOut o
-  if a.multi && sortChars m == sortChars tok then tok else m
+def withOrd (ord : List Name) : HItem → HItem
+  | .op (.flushAll _) => .op (.flushAll ord)
+  | .op (.compactAll _) => .op (.compactAll ord)
+  | .opCrash (.flushAll _) j c => .opCrash (.flushAll ord) j c
+  | .opCrash (.compactAll _) j c => .opCrash (.compactAll ord) j c
+  | x => x
 
-/-- crash inside a loop over several shards whose iteration order is a `HashMap`'s: the model abstains. -/
-def ambiguous (b : Nat) : Sys → List HItem → Bool
-  | _, [] => false
-  | sys, it :: rest =>
+/-- the iteration order of every multi-shard loop is a schedule parameter of the model; it is read off the
+    implementation's own tokens (walking the tokens in lockstep with the model). -/
+def fillOrd (b : Nat) : Sys → List HItem → List String → List HItem
+  | _, [], _ => []
+  | sys, it :: rest, toks =>
     match sys, it with
-    | .down d, .openCrash j cut =>
-      match openEngine d with
-      | none => false
-      | some w =>
-        -- recompute the dirty set the drain loop saw
-        let entries := (readAll d).getD []
-        let dirtyN := (entries.map (·.1)).eraseDups.length
-        dirtyN ≥ 2 || ambiguous b (.down (imageAt d w.trace j cut)) rest
+    | .down d, .openCrash j cut _ =>
+      let ord := ordOfTok (toks.headD "")
+      match openEngine d ord with
+      | none => .openCrash j cut ord :: rest
+      | some w => .openCrash j cut ord :: fillOrd b (.down (imageAt d w.trace j cut)) rest (toks.drop 1)
     | _, _ =>
       match bringUp sys with
-      | (_, none) => false
-      | (_, some w) =>
-        match it with
-        | .op o => ambiguous b (.up (runOp b w o)) rest
-        | .opCrash o j cut =>
-          let multi := match o with
-            | .flushAll => (dirty w.mem.shards).length ≥ 2
-            | .compactAll => w.mem.shards.length ≥ 2
-            | _ => false
-          multi || ambiguous b (.down (imageAt w.disk (runOp b w o).trace j cut)) rest
-        | _ => ambiguous b (.down (crash w.disk noCut)) rest
+      | (_, none) => it :: rest
+      | (outs, some w) =>
+        let toks := toks.drop outs.length
+        let it' := withOrd (ordOfTok (toks.headD "")) it
+        let sys' : Sys := match it' with
+          | .op o => .up (runOp b w o)
+          | .opCrash o j cut => .down (imageAt w.disk (runOp b w o).trace j cut)
+          | _ => .down (crash w.disk noCut)
+        it' :: fillOrd b sys' rest (toks.drop 1)
 
 def run : Handler := fun args impl =>
   match parseReq args with
   | none => badReq
   | some (b, h) =>
-    let h := h ++ [.restart]
-    if ambiguous b (.up {}) h then { model := impl, spec := "na", nt := false } else
+    let toks := impl.splitOn " "
+    let h := fillOrd b (.up {}) (h ++ [.restart]) toks
     let ann := annotate b (.up {}) {} h
     let outs := runItems b (.up {}) h          -- = Persist.run b (the history without the final restart)
     if ann.map (·.1) != outs then { model := " ".intercalate (outs.map renderOut), spec := specFail "unclassified" "driver-annotate-mismatch", nt := false } else
     let nt := ann.any (fun (o, _) => match o with
       | .opened v _ => !v.isEmpty
       | .openFailed => true
-      | .ack true (_ :: _) => true
+      | .ack true (_ :: _) _ => true
       | _ => false)
-    let toks := impl.splitOn " "
-    let rendered := if toks.length == ann.length then (ann.zip toks).map (fun ((o, a), t) => renderVs o a t) else outs.map renderOut
-    { model := " ".intercalate rendered,
+    { model := " ".intercalate (outs.map renderOut),
       spec := judge ann toks,
       nt := nt }
 
